@@ -232,7 +232,7 @@ def is_failure(k):
     return not k.startswith("ok|")
 
 
-def oracle_deviations(ikeys, ifinal, rkeys, wkeys=None):
+def oracle_deviations(ikeys, ifinal, rkeys, wkeys=None, skip_races=True):
     """Compare the implementation's outcome set with the reference semantics.
     rkeys: outcomes of R with sequentially consistent atomics -- the LOWER bound
     (everything an interleaving can produce must be explored); wkeys: outcomes of
@@ -243,7 +243,7 @@ def oracle_deviations(ikeys, ifinal, rkeys, wkeys=None):
     dev = []
     if "ref-out-of-fuel" in rkeys or "ref-out-of-fuel" in wkeys:
         return ["ref-out-of-fuel"]
-    if ifinal == "causality" or "causality" in ikeys:
+    if skip_races and (ifinal == "causality" or "causality" in ikeys):
         return []          # data races are C04's business; R has no race detector
     rfail = {k for k in rkeys if is_failure(k)}
     rok = rkeys - rfail
@@ -491,12 +491,19 @@ class OutcomeCheck:
                 # search: programs whose behaviour the model does not reproduce
                 rk = driver_keys("ref", fam.file)
                 wk = driver_keys("refw", fam.file) if self.ref_mode == "refw" else rk
+                mk_ = driver_keys("keys", fam.file)
                 for m in mm:
                     i = m.get("index")
                     if i is None or i not in fam.parsed:
                         continue
                     ik, ifinal = impl_keys(fam.parsed[i])
-                    for d in oracle_deviations(ik, ifinal, rk[i]["keys"], wk[i]["keys"]):
+                    for d in oracle_deviations(ik, ifinal, rk[i]["keys"], wk[i]["keys"], skip_races=False):
+                        if d == "spurious-failure:causality" and "causality" in mk_[i]["keys"]:
+                            continue      # the faithful model reports the same race
+                        if d.startswith("spurious-failure:causality"):
+                            d = d + " (a data race is reported in a program whose accesses the model and R order)"
+                            res["violations"].append({"prog": fam.lines[i], "deviation": d, "found_by": "search after correspondence mismatch"})
+                            continue
                         if self.relevant(d) and not known.match(fam.lines[i], d):
                             res["violations"].append({"prog": fam.lines[i], "deviation": d, "found_by": "search after correspondence mismatch"})
             for v in self.extra(ctx, fam, fam.lines):
@@ -722,8 +729,73 @@ def lock_trace_check(fam, lines):
     return viol
 
 
+
+class C12:
+    level = "proof"
+    design_ref = "DESIGN.md section 8, C12"
+    technique = "Coq proof (u64 encoding round trip, every RMW closure equals the std semantics, all operation sequences) + four-way differential check loom / std / model-loom / model-std"
+    level_text = ("NumFacts.v proves, for all 12 atomic types, all operand values in range and all operation sequences, that the loom implementation through the u64 encoding returns "
+                  "the same values and final content as the std semantics (num_roundtrip, loom_step_matches_std, atomic_matches_std). The model of the encoding and closures is tied to the "
+                  "code by running the same boundary-biased sequences on the real loom atomic (inside a model, so the store ring and match_load_to_stores are exercised), on the real "
+                  "std atomic, and on both Coq definitions.")
+    level_note = ("Trusted: Coq kernel; the transcription of rt/num.rs and the closures of sync/atomic/*.rs (validated by the four-way comparison); "
+                  "orderings do not influence single-thread values and are varied only on the implementation side.")
+    assumptions = ["single thread; all valid orderings are exercised on the implementation, the model ignores them",
+                   "std atomics of the host are the reference implementation of the std semantics"]
+
+    def run(self, ctx):
+        res = {"coverage": {}, "violations": [], "broken": [], "known": []}
+        per = 40 if ctx.tier == "quick" else 600
+        cases = gen.fam_num(ctx.seed, per)
+        f = os.path.join(ctx.dir, "num.txt")
+        open(f, "w").write("\n".join(cases) + "\n")
+        import subprocess
+        h = subprocess.run([corr.HARNESS, "num", f], capture_output=True, text=True, timeout=1200, env=corr.clean_env())
+        d = subprocess.run([corr.DRIVER, "num", f], capture_output=True, text=True, timeout=1200)
+        hl = [l for l in h.stdout.splitlines() if l.startswith("NUM ")]
+        dl = [l for l in d.stdout.splitlines() if l.startswith("NUM ")]
+        if h.returncode != 0 or d.returncode != 0 or len(hl) != len(cases) or len(dl) != len(cases):
+            res["broken"].append(f"num runs failed: harness rc={h.returncode} lines={len(hl)} driver rc={d.returncode} lines={len(dl)} {h.stderr[-300:]} {d.stderr[-300:]}")
+        ntypes = {}
+        nops = 0
+        for case, a, b in zip(cases, hl, dl):
+            ty = case.split("|")[1].strip()
+            ntypes[ty] = ntypes.get(ty, 0) + 1
+            nops += case.count(";") + 1
+            pa = [x.strip() for x in a.split("|")]
+            pb = [x.strip() for x in b.split("|")]
+            if "NOT-WELL-FORMED" in b:
+                res["broken"].append("generator produced an ill-formed case: " + case)
+                continue
+            if len(pa) < 3:
+                res["violations"].append({"case": case, "what": "the loom atomic panicked", "impl": a})
+                continue
+            il, istd = pa[1][5:], pa[2][4:]
+            ml, mstd = pb[1][5:], pb[2][4:]
+            il = il.replace("-skip-", "")
+            if istd != il and "-skip-" not in pa[1]:
+                res["violations"].append({"case": case, "what": "loom atomic differs from std atomic", "loom": il, "std": istd})
+            elif ml != il and "-skip-" not in pa[1]:
+                res["broken"].append(f"correspondence Num.v vs implementation: case `{case}` impl `{il}` model `{ml}`")
+            if mstd != ml:
+                res["broken"].append(f"Num.v: loom_run and std_run disagree on `{case}` (atomic_matches_std should make this impossible)")
+        res["coverage"] = {
+            "programs": len(cases), "operations": nops, "per_type": ntypes,
+            "disagreements_checked": len(res["broken"]),
+            "evaluations": len(cases), "distinct_nontrivial": len({c.split("|", 1)[1] for c in cases}),
+            "rule": "per type: fixed boundary corpus (overflow at both ends, sign boundaries, ring wrap with >7 stores) + seeded boundary-biased random sequences of 1-12 operations over all operations and valid orderings; distinct = case text",
+            "samples": cases[:2] + cases[-2:],
+        }
+        ctx.cleanup()
+        return res
+
+    def replay(self, ctx, path):
+        print(open(path).read())
+        return 0
+
+
 HOOK_COMMITS = ["8f72140"]
 FIX_COMMITS = ["4a97b3f", "e9415b5", "1d4f62f", "36c0d26", "7942235", "13413be", "756d098"]
 NOT_CLAIMED = {}
 REGISTRY = {"C14": C14(), "C01": C01(), "C05": C05(), "C07": C07(), "C08": C08(), "C09": C09(),
-            "C10": C10(), "C11": C11(), "C18": C18()}
+            "C10": C10(), "C11": C11(), "C18": C18(), "C12": C12()}
